@@ -366,9 +366,50 @@ def who_may_mutate_rule(prog, res):
         res.viol('who-may-mutate', 'c3d copyable', 'include/ezc3d.h:%d' % c3d['line'], 'two c3d objects could share section handles', function='', expr='copy')
 
 
+def setter_order_rule(prog, res, rule):
+    """nbAnalogs(n) stores n x (current sub-frames) and nbAnalogByFrame(k) keeps measurements / (old sub-frames): an updater that sets the
+    channel count first and the sub-frame count afterwards loses the channel count whenever the old sub-frame count is 0 (n x 0, then 0 x k)"""
+    H = 'ezc3d::Header'
+    roots = [f for f in prog.repo_funcs() if f.qname == 'ezc3d::c3d::updateHeader']
+    fam = [prog.funcs[u] for u in sorted(prog.reachable_from(roots)) if u in prog.funcs and not prog.funcs[u].implicit and prog.funcs[u].body is not None and
+           (prog.funcs[u].cls == 'ezc3d::c3d' or prog.funcs[u].rec.get('internal') or '(anonymous namespace)' in prog.funcs[u].qname)]
+    n = 0
+    # the premise, on this tree: with 0 sub-frames nbAnalogs(3) stores 0 measurements, and nbAnalogByFrame(2) then keeps 0
+    premise = True
+    try:
+        for fn_, arg_ in ((prog.fn(H + '::nbAnalogs', nparams=1), 3), (prog.fn(H + '::nbAnalogByFrame', nparams=1), 2)):
+            st_ = {'fields': True}
+            _e, end_, _u = a7.walk(fn_, {'this._nbAnalogsMeasurement': 0, 'this._nbAnalogByFrame': 0, 'arg0': arg_}, follow_loops=True, max_steps=500, state=st_)
+            if end_ != 'NEXIT' or st_['model'].get('this._nbAnalogsMeasurement') != 0:
+                premise = False
+    except Exception:
+        premise = False
+    for f in fam:
+        g = f.events()
+        A = [g.vertex_of.get(c['id']) for c in f.calls() if c['callee']['qname'] == H + '::nbAnalogs' and c['callee'].get('nparams') == 1]
+        B = [(g.vertex_of.get(c['id']), c) for c in f.calls() if c['callee']['qname'] == H + '::nbAnalogByFrame' and c['callee'].get('nparams') == 1]
+        A = [a for a in A if a is not None]
+        for b, c in B:
+            if b is None:
+                continue
+            n += 1
+            before = [a for a in A if b in g.reach([a]) and a != b]
+            if before and g.NEXIT in g.reach([b], avoid=set(A)) and not premise:
+                res.undecided(rule, 'updateHeader: sub-frame count before channel count', f.loc(c['id']), 'the channel count is set before the sub-frame count, and what the two setters store cannot be evaluated on this tree '
+                              '[shape not read by the rule]', function=f.sig, expr='setter-order')
+            elif before and g.NEXIT in g.reach([b], avoid=set(A)):
+                res.viol(rule, 'updateHeader: sub-frame count before channel count', f.loc(c['id']),
+                         'the header\'s channel count is set (%s) before the sub-frame count (here) and not again afterwards: nbAnalogs(n) stores n x the current sub-frame count, so when that count is still 0 '
+                         'the rescaling sub-frame setter keeps 0 channels' % f.loc(g.node_of(before[0])), function=f.sig, expr='setter-order', sure=True)
+            else:
+                res.ok(rule, 'updateHeader: sub-frame count before channel count', f.loc(c['id']), 'no channel-count setter precedes the sub-frame setter without a later one', function=f.sig, expr='setter-order@%d' % c['id'])
+    return n
+
+
 def derived_rule(prog, res, rule='derived'):
     H = 'ezc3d::Header'
     E = FX.get(prog)
+    setter_order_rule(prog, res, rule)
     getter = prog.fn(H + '::nbAnalogs', nparams=0)
     setter = prog.fn(H + '::nbAnalogs', nparams=1)
     sub = prog.fn(H + '::nbAnalogByFrame', nparams=1)
